@@ -33,6 +33,7 @@ func main() {
 	case "gen-anchors":
 		// resolve every anchor on the current tree (by running all checks with their output discarded) and record its shape
 		os.Setenv("LCV_OUT", os.TempDir()+"/lcv-gen-anchors")
+		os.Setenv("LCV_GEN_ANCHORS", "1")
 		for _, id := range props.IDs() {
 			props.RunCheck(repo, verif, id, "quick")
 		}
